@@ -349,6 +349,7 @@ void ICACHE_FLASH_ATTR supla_esp_parse_vars(TrivialHttpParserVars *pVars,
                                             char *pdata, unsigned short len,
                                             SuplaEspCfg *cfg, char *reboot) {
   char tempPassword[SUPLA_EMAIL_MAXSIZE];
+  tempPassword[0] = '\0';
 
   for (int a = 0; a < len; a++) {
     if (pVars->current_var == VAR_NONE) {
